@@ -77,11 +77,11 @@ def real_stale(a):
             A.__version__ = ver
         cache = os.path.join(mdl, "T.pymoca_cache")
         base = 1_600_000_000
-        os.utime(cache, (base + a["m_c"], base + a["m_c"]))
+        os.utime(cache, (base + a["m_c"] / 4.0, base + a["m_c"] / 4.0))  # harness time stamps are quarter seconds
         def put(path, text, mt):
             if text is not None:
                 open(path, "w").write(text)
-            os.utime(path, (base + mt, base + mt))
+            os.utime(path, (base + mt / 4.0, base + mt / 4.0))
         put(os.path.join(mdl, "T.mo"), T2 if a["ch_t"] else None, a["m_t"])
         if a["u_present"]:
             put(os.path.join(mdl, "U.mo"), U1 if a["u_new"] else None, a["m_u"])
@@ -172,8 +172,35 @@ def main_c20(a):
             args[NAMES.index(k)] = bool(int(val)) if k == "codegen" else int(val)
         res = getattr(h20, v.func)(*args)
         if res == 1:
-            rep.harness_error(f"counterexample {v.func}({argtxt}) did not reproduce concretely")
-            continue
+            # CrossHair reports one model of the path condition; arguments the failing path never constrained may
+            # come out with values that take another path.  Search the neighbourhood (same time stamps, every
+            # setting of the flags and option indices) for a concrete failing tuple before giving up.
+            import itertools
+            found = None
+            bidx = [NAMES.index(k) for k in ("ch_t", "u_present", "u_new", "ch_l", "ch_n", "ver_same", "da_old", "da_new")]
+            ridx = [NAMES.index(k) for k in ("rx_old", "rx_new")]
+            for bits in itertools.product((False, True), repeat=len(bidx)):
+                for rx in itertools.product(range(3), repeat=2):
+                    cand = list(args)
+                    for i, b in zip(bidx, bits):
+                        cand[i] = b
+                    for i, r in zip(ridx, rx):
+                        cand[i] = r
+                    f_ = dict(zip(NAMES, cand))
+                    mc = f_["m_c"]
+                    if (f_["ch_t"] and not f_["m_t"] > mc) or (f_["u_present"] and f_["u_new"] and not f_["m_u"] > mc) or (f_["ch_l"] and not f_["m_l"] > mc) or (f_["ch_n"] and not f_["m_n"] > mc):
+                        continue
+                    if v.func == "stale_other" and f_["lib_old"] == f_["lib_new"]:
+                        continue
+                    if getattr(h20, "_stale")(*cand, v.func == "stale") != 1:
+                        found = cand
+                        break
+                if found:
+                    break
+            if not found:
+                rep.harness_error(f"counterexample {v.func}({argtxt}) did not reproduce concretely")
+                continue
+            args = found
         f = dict(zip(NAMES, args))
         only_lib = (f["lib_old"] != f["lib_new"] and not (f["ch_t"] or (f["u_present"] and f["u_new"]) or f["ch_l"] or f["ch_n"])
                     and f["ver_same"] and f["da_old"] == f["da_new"] and f["rx_old"] == f["rx_new"])
@@ -211,7 +238,7 @@ def main_c20(a):
                         "_compile_model -> token, save_model -> recorder, casadi.external -> the cached Function",
                         "premise of the property: a file whose content differs from what the cache was built from is strictly newer than the cache file",
                         "mtime_check=True (the default); deleting files is not in the property's list of events",
-                        "mtimes are integers (nanoseconds): the code only compares them"]
+                        "mtimes are quarter-second ticks in a window of 10 (every order pattern, and strictly-later-within-the-same-second); ordering compares ticks, int()/float() behave like float seconds"]
     return rep.finish()
 
 
